@@ -38,6 +38,50 @@ Theorem C13_update_best_spec :
 Proof. exact update_best_spec. Qed.
 Print Assumptions C13_update_best_spec.
 
+(** head updates that land INSIDE a refresh: updateBest reads every head twice (maximum,
+    then the find functions) holding only the pool lock; [cs1] is what the first loop read,
+    [cs2] what the second reads.  The choice is the property's choice among the connections
+    that are alive and at most one block behind the newest head the first loop saw; a head
+    that has risen above that maximum keeps its connection a candidate *)
+Theorem C13_update_best_racing_heads :
+  forall st cs1 cs2 prev,
+    is_choice st (fun c => c_alive c = true /\ (newest cs1 - seq32 c <= 1)%N) cs2 prev
+              (update_best2 st cs1 cs2 prev).
+Proof. exact update_best2_spec. Qed.
+Print Assumptions C13_update_best_racing_heads.
+
+Theorem C13_update_best_racing_picks_current :
+  forall st cs1 cs2 prev i c1 c2,
+    st <> OtherStrategy -> heads_rose cs1 cs2 ->
+    nth_error cs1 i = Some c1 -> nth_error cs2 i = Some c2 ->
+    (newest cs1 - seq32 c1 <= 1)%N -> c_alive c2 = true ->
+    exists j d, update_best2 st cs1 cs2 prev = Some j /\ nth_error cs2 j = Some d /\
+                c_alive d = true /\ (newest cs1 - seq32 d <= 1)%N.
+Proof. exact update_best2_picks_current. Qed.
+
+(** the same inside the protocol: every refresh step of the LTS, whatever the first loop read *)
+Theorem C13_refresh_choice :
+  forall strat nconns tgt s obs old s',
+    step strat false false nconns tgt s (LUpdDone obs old) = Some s' ->
+    let cs1 := mk_conns nconns (first_read (head s) old) obs in
+    let cs2 := mk_conns nconns (head s) obs in
+    best s' = update_best2 strat cs1 cs2 (best s) /\
+    is_choice strat (fun c => c_alive c = true /\ (newest cs1 - seq32 c <= 1)%N) cs2 (best s) (best s').
+Proof. exact refresh_choice. Qed.
+
+(** REFUTED for the currency test written as the uint32 difference maxSeqno - seqno <= 1
+    (equal to the code's test on every snapshot): a head rising between the two reads wraps it
+    and the refresh keeps a dead connection although an alive one has the newest head *)
+Theorem C13_racing_head_refuted_sub32 :
+  heads_rose race_cs1 race_cs2 /\
+  update_best2_sub32 BestPing race_cs1 race_cs2 (Some 0) = Some 0 /\
+  update_best2_sub32 FirstWorking race_cs1 race_cs2 (Some 0) = Some 0 /\
+  ~ is_choice BestPing (fun c => c_alive c = true /\ (newest race_cs1 - seq32 c <= 1)%N) race_cs2 (Some 0)
+      (update_best2_sub32 BestPing race_cs1 race_cs2 (Some 0)) /\
+  update_best2 BestPing race_cs1 race_cs2 (Some 0) = Some 1 /\
+  update_best2 FirstWorking race_cs1 race_cs2 (Some 0) = Some 1.
+Proof. exact update_best_racing_head_refuted_sub32. Qed.
+
 (** the two halves read out *)
 Theorem C13_update_best_picks_eligible :
   forall st cs prev c, st <> OtherStrategy -> In c cs -> eligible cs c ->
